@@ -210,7 +210,11 @@ class Strings(SubCheck):
 
 
 UNITS = ["", "px", "pt", "pc", "in", "%", "em"]
-RENDER = [dict(ppi=96, width=200, height=100, font_size=16), dict(ppi=72, width=50, height=400, font_size=10)]
+RENDER = [dict(ppi=96, width=200, height=100, font_size=16), dict(ppi=72, width=50, height=400, font_size=10),
+          # the other ways of supplying the reference lengths: one relative_length for both axes; only one of the two sizes
+          # plus relative_length for the other axis
+          dict(ppi=96, relative_length=300, font_size=16), dict(ppi=96, width=200, relative_length=80, font_size=12),
+          dict(ppi=96, height=60, relative_length=250, font_size=12)]
 WRAP = [None, ("scale", ["2", "3"]), ("rotate", ["30"]), ("skewx", ["20"]), ("matrix", ["1.5", "0.5", "-0.25", "2", "3", "-4"]),
         ("translate", ["5", "7"]), ("scale", ["-1", "1"])]
 
@@ -248,8 +252,8 @@ class Units(SubCheck):
     def run(self, case):
         out = Outcome()
         r = case["render"]
-        cx = ls.Ctx(ppi=r["ppi"], rel=F(r["width"]), font_size=r["font_size"])
-        cy = ls.Ctx(ppi=r["ppi"], rel=F(r["height"]), font_size=r["font_size"])
+        cx = ls.Ctx(ppi=r["ppi"], rel=F(r.get("width", r.get("relative_length"))), font_size=r["font_size"])
+        cy = ls.Ctx(ppi=r["ppi"], rel=F(r.get("height", r.get("relative_length"))), font_size=r["font_size"])
         funcs = [(n, a) for n, a in case["funcs"]]
         exp = expected_of(funcs, (cx, cy))
         s = case["s"]
